@@ -9,7 +9,8 @@
      terminate{rid}             a stream filter terminated the request (C14 drivers)
      clean{rid}                 hook ds.clean (after the CAS in cleanStream)
      note{...}                  informational hook events (timers, upstream receive/reset, loop phases): no constraint
-     cdone{rid, kind, status, extra, elapsed, bound}   driver: what the client observed on its connection
+     cdone{rid, kind, status, extra, elapsed, bound, foreign}   driver: what the client observed on its connection
+                                (foreign: a proxy-made reply whose body holds the token of an upstream answer)
      quiesce{active, rq, pd, rt, ...}  driver: all gates released, timeout+slack elapsed; gauges and the clusters'
                                 circuit-breaker resources read (requests, pending, retries; summed over the clusters,
                                 relative to their values when the run began) *)
@@ -72,6 +73,7 @@ TCDone == /\ IsEvent("cdone")
           /\ Expect(Ev.kind # "oneway-none" \/ (Ev.rid # 0 /\ "oneway" \in explained[Ev.rid] /\ replies[Ev.rid] = 0), "oneway-request-not-handled-as-oneway")
           /\ Expect(Ev.kind # "response" \/ Ev.rid = 0 \/ "oneway" \notin explained[Ev.rid], "reply-to-oneway-request")
           /\ Expect(Ev.elapsed <= Ev.bound, "reply-later-than-timeout-plus-slack")
+          /\ Expect(~Ev.foreign, "local-reply-carries-upstream-body")   \* a reply the proxy made itself holds nothing of an (earlier) upstream answer
           /\ UNCHANGED vars
 
 TQuiesce == /\ IsEvent("quiesce")
